@@ -90,6 +90,18 @@ func (e *Exec) addObl(s *State, name, kind string, goal *Node, pos token.Pos, te
 	if e.quiet > 0 {
 		return
 	}
+	if kind == "safety" && e.fc != nil && e.fc.SafetyKinds != nil {
+		// name = <func>/safety/<kind>#n
+		ok := false
+		for k := range e.fc.SafetyKinds {
+			if strings.Contains(name, "/safety/"+k+"#") {
+				ok = true
+			}
+		}
+		if !ok {
+			return
+		}
+	}
 	if goal == tTrue {
 		// still count as trivially discharged obligation? keep it: cheap and visible
 	}
@@ -121,6 +133,7 @@ func (e *Exec) bindParams(s *State) {
 		e.params[p.Name()] = v
 		e.paramT[p.Name()] = p.Type()
 	}
+	e.pendingParamInv = true
 	var fvRefs []*Node
 	for _, fv := range e.fn.FreeVars {
 		v := e.freshValue(s, "fv_"+fv.Name(), fv.Type())
@@ -726,6 +739,9 @@ func (e *Exec) execInstr(s *State, ins ssa.Instruction) {
 		}
 	case *ssa.Store:
 		p := e.val(s, x.Addr)
+		if _, isLocal := p.(*LocalPtr); !isLocal {
+			e.assertValInv(s, e.val(s, x.Val), x.Val.Type(), x, "stored to shared memory")
+		}
 		e.writeLoc(s, e.resolve(p, derefType(x.Addr.Type())), e.val(s, x.Val))
 	case *ssa.UnOp:
 		e.setReg(x, e.unop(s, x))
@@ -843,6 +859,9 @@ func (e *Exec) unop(s *State, x *ssa.UnOp) Value {
 			}
 		}
 		v := e.readLoc(s, e.resolve(p, t))
+		if _, isLocal := p.(*LocalPtr); !isLocal {
+			e.assumeValInv(s, v, t)
+		}
 		if g, ok := x.X.(*ssa.Global); ok && e.v.db.NonNil[g.Pkg.Pkg.Path()+"."+g.Name()] {
 			if n, ok := v.(*Node); ok {
 				if n.Sort == "Iface" {
@@ -866,6 +885,7 @@ func (e *Exec) unop(s *State, x *ssa.UnOp) Value {
 		e.logAbs("channel receive: unconstrained value")
 		t := x.X.Type().Underlying().(*types.Chan).Elem()
 		v := e.freshValue(s, "recv", t)
+		e.assumeValInv(s, v, t)
 		if x.CommaOk {
 			return &TupleV{E: []Value{v, TS.Fresh("recvok", "Bool")}}
 		}
@@ -1185,7 +1205,7 @@ func (e *Exec) makeSlice(s *State, x *ssa.MakeSlice) Value {
 	if e.safety {
 		e.addObl(s, e.oblName("safety/makeslice"), "safety", And(e.ile(e.idx(0), l), e.ile(l, c)), x.Pos(), "makeslice: len out of range")
 	}
-	e.allocSite(s, x, l, x.Type().Underlying().(*types.Slice).Elem())
+	e.allocSite(s, x, c, x.Type().Underlying().(*types.Slice).Elem())
 	r := e.newRef(s)
 	et := x.Type().Underlying().(*types.Slice).Elem()
 	for _, li := range e.mode.leaves(et) {
